@@ -1,5 +1,5 @@
 use super::field_utils::parse_name_and_address;
-use super::swift_utils::{parse_bic, parse_swift_chars};
+use super::swift_utils::{ensure_ascii, parse_bic, parse_swift_chars};
 use crate::errors::ParseError;
 use crate::traits::SwiftField;
 use serde::{Deserialize, Serialize};
@@ -74,6 +74,7 @@ impl SwiftField for Field59F {
     where
         Self: Sized,
     {
+        ensure_ascii(input, "Field 59")?;
         let lines: Vec<&str> = input.lines().collect();
 
         if lines.is_empty() {
@@ -183,6 +184,7 @@ impl SwiftField for Field59A {
     where
         Self: Sized,
     {
+        ensure_ascii(input, "Field 59")?;
         let lines: Vec<&str> = input.lines().collect();
 
         if lines.is_empty() {
@@ -242,6 +244,7 @@ impl SwiftField for Field59NoOption {
     where
         Self: Sized,
     {
+        ensure_ascii(input, "Field 59")?;
         let lines: Vec<&str> = input.lines().collect();
 
         if lines.is_empty() {
@@ -295,6 +298,7 @@ impl SwiftField for Field59 {
     where
         Self: Sized,
     {
+        ensure_ascii(input, "Field 59")?;
         // Try Option A (BIC-based) first
         if let Ok(field) = Field59A::parse(input) {
             return Ok(Field59::A(field));
@@ -379,6 +383,7 @@ impl SwiftField for Field59Debtor {
     where
         Self: Sized,
     {
+        ensure_ascii(input, "Field 59")?;
         // Try Option A (BIC-based) first
         if let Ok(field) = Field59A::parse(input) {
             return Ok(Field59Debtor::A(field));
